@@ -915,6 +915,13 @@ func truthFromFull(fs []mp4.FullSample, media string, ts uint32) *ttrack {
 
 func execC11(req string) string {
 	f := strings.Fields(req)
+	if len(f) >= 4 && f[0] == "dumpreseg" { // diagnostic: write the resegmenter input of "reseg …" to a file
+		input, _, err := resegInputFromSpec(f[3:])
+		if err != nil {
+			return "input-err " + err.Error()
+		}
+		return fmt.Sprint(os.WriteFile(f[1], input, 0o644))
+	}
 	if len(f) >= 2 && strings.HasPrefix(f[0], "seg.") && strings.HasPrefix(f[1], "H=") {
 		return execSegModel(f[0], f[1][2:])
 	}
